@@ -418,6 +418,7 @@ PROPS["C15"] = {
         Leg("history-no-tzdata", "c15", "^TestHistory$", wrap="no-tzdata", env={"ZONEINFO": ""}, checks=(300, 4000), shards=(1, 8), tests=["history"]),
         Leg("history-386", "c15", "^TestHistory$", goarch="386", checks=(300, 4000), shards=(1, 8), tests=["history"]),
         Leg("history-race", "c15", "^TestHistory$", engine="sched", race=True, checks=(200, 3000), shards=(2, 16), tests=["history"]),
+        Leg("first-use-race", "c15", "^TestHistory$", engine="sched", race=True, checks=(2, 2), shards=(12, 64), env={"VERIF_FIRST_USE": "1"}, tests=["history"], replay_attempts=5),
     ],
 }
 
